@@ -9,6 +9,7 @@ mod compile;
 mod frags;
 mod lift;
 mod ext;
+mod ext_opsdir;
 mod eqord;
 mod robust;
 mod sat;
@@ -51,6 +52,7 @@ fn main() {
         "validate" => validate::run(&args[2..]),
         "text" => text::run(&args[2..]),
         "ext" => ext::run(&args[2..]),
+        "opsdir" => ext_opsdir::run(&args[2..]),
         "eqord" => eqord::run(&args[2..]),
         "translate" => translate::run(&args[2..]),
         "policy" => policy::run(&args[2..]),
